@@ -352,6 +352,9 @@ func Solve(o *Obligation, timeoutS int, confirm bool) *Result {
 		want = "unsat"
 	}
 	query := o.Query(true)
+	if want == "sat" && timeoutS > 3 {
+		timeoutS = 3 // satisfiability probes: cheap attempt only, "undecided" is not an alarm
+	}
 	for i, sp := range solvers {
 		t := timeoutS
 		if i > 0 {
